@@ -632,6 +632,12 @@ func BuildFullTIFF(rng *rand.Rand, order string) []byte { return BuildFullTIFFAt
 // BuildFullTIFFAt is BuildFullTIFF with IFD0 at ifd0At (>= 8; the gap after the header is filler): the
 // same directories and values at every alignment with a reader's buffer windows.
 func BuildFullTIFFAt(rng *rand.Rand, order string, ifd0At int) []byte {
+	return BuildFullTIFFFill(rng, order, ifd0At, nil)
+}
+
+// BuildFullTIFFFill is BuildFullTIFFAt with the directories padded to a given number of entries by unrelated
+// embedded tags (private ids 0xC000..., SHORT): fill["Exif"] = 128 makes the Exif directory exactly 128 entries long.
+func BuildFullTIFFFill(rng *rand.Rand, order string, ifd0At int, fill map[string]int) []byte {
 	var bo binary.ByteOrder = binary.LittleEndian
 	if order == "BE" {
 		bo = binary.BigEndian
@@ -665,6 +671,11 @@ func BuildFullTIFFAt(rng *rand.Rand, order string, ifd0At int) []byte {
 		}
 	}
 	dirs["IFD0"] = append(dirs["IFD0"], ent{0x8769, LVal{Typ: tLong, Longs: []uint32{0}}}, ent{0x8825, LVal{Typ: tLong, Longs: []uint32{0}}})
+	for d, want := range fill {
+		for k := 0; len(dirs[d]) < want; k++ {
+			dirs[d] = append(dirs[d], ent{uint16(0xC000 + k), LVal{Typ: tShort, Shorts: []uint16{uint16(k)}}})
+		}
+	}
 	dirSize := func(d string) int {
 		n := 2 + 12*len(dirs[d]) + 4
 		for _, e := range dirs[d] {
